@@ -35,6 +35,8 @@ Definition entry (orc : oracle) (cmd : str) (args : list sx) : option sx :=
   else if is_cmd cmd "py_fs_analyze" then Some (sx_of_bool (fs_analyze (fs_of_sx (a 0%nat)) (sx_str (a 1%nat))))
   else if is_cmd cmd "py_fs_shadowed" then
     Some (sx_of_bool (shadowed (fs_of_sx (a 0%nat)) (path_comps (sx_str (a 1%nat))) (sx_str (a 2%nat))))
+  else if is_cmd cmd "py_fs_local_shadow" then
+    Some (sx_of_bool (local_shadow (fs_of_sx (a 0%nat)) (path_comps (sx_str (a 1%nat)))))
   else if is_cmd cmd "py_fs_syspath0" then
     Some (sx_of_syspath0 (py_syspath0 (fs_of_sx (a 0%nat)) (sx_str (a 1%nat)) (sx_strs (a 2%nat))))
   else if is_cmd cmd "py_suffix_ok" then Some (sx_of_bool (suffix_ok (sx_str (a 0%nat))))
